@@ -149,6 +149,11 @@ func writeEventsOn(P *Program, fn *ssa.Function, w ssa.Value) (evs []writeEvent,
 						}
 					}
 				}
+				// w.Write(buf[:n]) with n := binary.PutVarint(buf, int64(v)) written just before: the varint of v
+				if v := putVarintWritten(cc.Args[0], ci); v != nil {
+					evs = append(evs, writeEvent{Instr: ci, Kind: "varint", Arg: stripConv(v), Err: errValueOfCall(call)})
+					continue
+				}
 				evs = append(evs, writeEvent{Instr: ci, Kind: "bytes", Arg: cc.Args[0], Err: errValueOfCall(call)})
 			} else {
 				unknown = append(unknown, ref)
@@ -465,7 +470,98 @@ func isEncoderField(addr ssa.Value, field string) bool {
 	if !ok || n.Obj().Name() != "Encoder" || n.Obj().Pkg() == nil || n.Obj().Pkg().Path() != modPath {
 		return false
 	}
-	return fieldName(fa.X.Type(), fa.Field) == field
+	name := fieldName(fa.X.Type(), fa.Field)
+	if actual, ok := encFieldRoles[field]; ok {
+		return name == actual
+	}
+	return name == field
+}
+
+// encFieldRoles maps the pinned names of the encoder's fields (as the rules
+// spell them) to what the fields are called on the current tree, found by
+// what they are: wb the *WriteBuf, fw the *FileWriter, w the io.Writer, codec
+// the Codec, count the int that Encode increments by one, approxBlockSize the
+// other int.
+var encFieldRoles = map[string]string{}
+
+func computeEncRoles(P *Program, s *encShape) {
+	encFieldRoles = map[string]string{}
+	et, ok := P.NamedType(P.Avro, "Encoder").(*types.Named)
+	if !ok {
+		return
+	}
+	st, ok := et.Underlying().(*types.Struct)
+	if !ok {
+		return
+	}
+	var ints []string
+	uniq := map[string][]string{}
+	for i := 0; i < st.NumFields(); i++ {
+		f := st.Field(i)
+		switch {
+		case typeKey(f.Type()) == "*avro.WriteBuf":
+			uniq["wb"] = append(uniq["wb"], f.Name())
+		case typeKey(f.Type()) == "*avro.FileWriter":
+			uniq["fw"] = append(uniq["fw"], f.Name())
+		case isIOWriter(f.Type()):
+			uniq["w"] = append(uniq["w"], f.Name())
+		case isCodecIface(P, f.Type()):
+			uniq["codec"] = append(uniq["codec"], f.Name())
+		default:
+			if b, isB := f.Type().Underlying().(*types.Basic); isB && b.Kind() == types.Int {
+				ints = append(ints, f.Name())
+			}
+		}
+	}
+	for role, names := range uniq {
+		if len(names) == 1 {
+			encFieldRoles[role] = names[0]
+		}
+	}
+	if len(ints) == 2 && s.encode != nil {
+		// the counter: the int field some method stores "itself plus one" into
+		counter := ""
+		for _, fn := range []*ssa.Function{s.encode, s.flush} {
+			if fn == nil {
+				continue
+			}
+			for _, b := range fn.Blocks {
+				for _, in := range b.Instrs {
+					stI, ok := in.(*ssa.Store)
+					if !ok {
+						continue
+					}
+					fa, ok := stI.Addr.(*ssa.FieldAddr)
+					if !ok {
+						continue
+					}
+					add, ok := stI.Val.(*ssa.BinOp)
+					if !ok || add.Op != token.ADD {
+						continue
+					}
+					if one, isK := constInt(add.Y); !isK || one != 1 {
+						continue
+					}
+					if ld, ok := add.X.(*ssa.UnOp); ok && ld.Op == token.MUL {
+						if fa2, ok := ld.X.(*ssa.FieldAddr); ok && fa2.X == fa.X && fa2.Field == fa.Field {
+							n := fieldName(fa.X.Type(), fa.Field)
+							if n == ints[0] || n == ints[1] {
+								counter = n
+							}
+						}
+					}
+				}
+			}
+		}
+		if counter != "" {
+			encFieldRoles["count"] = counter
+			if counter == ints[0] {
+				encFieldRoles["approxBlockSize"] = ints[1]
+			} else {
+				encFieldRoles["approxBlockSize"] = ints[0]
+			}
+		}
+	}
 }
 
 func loadOfEncoderField(v ssa.Value, field string) bool {
@@ -490,6 +586,7 @@ func findEncoder(P *Program) *encShape {
 		}
 	}
 	s.ctor = P.Func(P.Avro, "NewEncoderFor")
+	computeEncRoles(P, s)
 	return s
 }
 
@@ -1051,4 +1148,48 @@ func ruleENCHdr(c *Ctx, ctor *ssa.Function) {
 	P := c.P
 	ok, why := headerWritten(P, ctor, 0)
 	c.Check(ok, fnKey(ctor)+"/header-before-return", P.pos(ctor.Pos()), "every success return is dominated by a successful WriteHeader (directly or in a helper)", "the constructor does not write the header on every path to success ("+why+"): an encoder that is flushed without a record leaves an empty file, which is not an Avro container")
+}
+
+// putVarintWritten: arg is X[:n] where n is the result of a dominating
+// binary.PutVarint(Y, v) and X and Y are the same buffer (the same value, or
+// whole-slices of the same array); returns v.
+func putVarintWritten(arg ssa.Value, at ssa.Instruction) ssa.Value {
+	sl, ok := arg.(*ssa.Slice)
+	if !ok || sl.Low != nil || sl.High == nil {
+		return nil
+	}
+	put, ok := sl.High.(*ssa.Call)
+	if !ok || put.Call.StaticCallee() == nil || qualName(put.Call.StaticCallee()) != "encoding/binary.PutVarint" || !dominatesInstr(put, at) {
+		return nil
+	}
+	base := func(v ssa.Value) string {
+		if s2, ok := v.(*ssa.Slice); ok && s2.Low == nil && s2.High == nil {
+			return accessPath(s2.X)
+		}
+		return ""
+	}
+	same := sl.X == put.Call.Args[0]
+	if !same {
+		a, b := base(sl.X), base(put.Call.Args[0])
+		if a == "" {
+			a = accessPath(sl.X)
+		}
+		same = a != "" && a == b
+	}
+	if !same {
+		return nil
+	}
+	// nothing else is put into the buffer between the two
+	for _, b := range put.Parent().Blocks {
+		for _, in := range b.Instrs {
+			other, ok := in.(*ssa.Call)
+			if !ok || other == put || other.Call.StaticCallee() == nil || !strings.HasPrefix(qualName(other.Call.StaticCallee()), "encoding/binary.Put") {
+				continue
+			}
+			if dominatesInstr(put, other) && dominatesInstr(other, at) {
+				return nil
+			}
+		}
+	}
+	return put.Call.Args[1]
 }
